@@ -56,8 +56,15 @@ def evaluate(d, props=None, verbose=True):
         res['demo_modified_tail'] = out_m.strip().splitlines()[-1][:300] if out_m.strip() else ''
         if rc_c != 0:
             res['demo_clean_tail'] = out_c.strip().splitlines()[-1][:300] if out_c.strip() else ''
-        rc_t, out_t = sh(['/venv/bin/python', '-m', 'pytest', '-q', '-p', 'no:cacheprovider', '--timeout=900', 'tests'],
-                         cwd=mod, env=envm)
+        # the repository suite has one randomly failing test on the clean tree (test_shot_noise_gaussian, unseeded):
+        # a run that fails is repeated; the change counts as suite-passing if a complete run passes
+        for attempt in range(3):
+            rc_t, out_t = sh(['/venv/bin/python', '-m', 'pytest', '-q', '-p', 'no:cacheprovider', '--timeout=900', 'tests'],
+                             cwd=mod, env=envm)
+            if rc_t == 0:
+                break
+            res.setdefault('suite_failed_attempts', []).append(
+                [l for l in out_t.splitlines() if l.startswith('FAILED')][:3])
         res['suite_rc'] = rc_t
         res['suite_tail'] = out_t.strip().splitlines()[-1][:200] if out_t.strip() else ''
         fired, errors = {}, {}
